@@ -388,7 +388,7 @@ func (s *Fn) condFacts(cond ssa.Value, val bool) (fs []Lin, dq []Lin) {
 			if sum := s.e.sums[f]; sum != nil && len(sum.truePost) > 0 {
 				env := s.callEnvAt(c, func(int) Lin { return konst(0) })
 				for _, cand := range sum.truePost {
-					if cand.ok {
+					if cand.ok && cand.res == 0 && f.Signature.Results().Len() == 1 {
 						fs = append(fs, cand.mk(env))
 					}
 				}
@@ -403,6 +403,32 @@ func (s *Fn) condFacts(cond ssa.Value, val bool) (fs []Lin, dq []Lin) {
 			if cs != nil && len(may) == 1 {
 				fs = append(fs, s.instantiate(c, may[0].facts)...)
 				fs = append(fs, s.instantiate(c, may[0].trueFacts)...)
+			}
+		}
+	case *ssa.Extract:
+		// bool component of a module function's tuple result
+		call, ok := c.Tuple.(*ssa.Call)
+		if !ok || !val {
+			return
+		}
+		if f := call.Call.StaticCallee(); f != nil && s.e.inMod(f) {
+			if sum := s.e.sums[f]; sum != nil && len(sum.truePost) > 0 {
+				env := s.callEnvAt(call, func(i int) Lin {
+					for _, ref := range *call.Referrers() {
+						if ex, ok := ref.(*ssa.Extract); ok && ex.Index == i {
+							if isInt(ex.Type()) {
+								return s.canon(ex)
+							}
+							return s.lenOf(ex)
+						}
+					}
+					return term(inlKey{call, i})
+				})
+				for _, cand := range sum.truePost {
+					if cand.ok && cand.res == c.Index {
+						fs = append(fs, cand.mk(env))
+					}
+				}
 			}
 		}
 	case *ssa.UnOp:
@@ -495,7 +521,7 @@ func (s *Fn) entails(fs, dq []Lin, goal Lin) bool {
 
 func (s *Fn) direct(fs, dq []Lin, goal Lin) bool {
 	neg := goal.scale(-1).plus(1) // goal >= 1
-	all := append(append([]Lin{}, fs...), s.global...)
+	all := append(append(append([]Lin{}, fs...), s.global...), s.pre...)
 	// globals may be added lazily while canonicalising; they are already in s.global
 	if unsat(append(cone(all, goal), neg)) {
 		return true
@@ -528,15 +554,28 @@ func (s *Fn) entailsD(fs, dq []Lin, goal Lin, depth int) bool {
 		return false
 	}
 	// candidate split terms: those in the goal and in facts sharing terms with it
-	all := append(append([]Lin{}, fs...), s.global...)
+	all := append(append(append([]Lin{}, fs...), s.global...), s.pre...)
 	c := cone(all, goal)
+	// Only terms of the goal and of the path facts are split on: those values are defined on every path to
+	// this point. A term known only from a global fact may belong to an instruction that has not run yet.
+	local := map[interface{}]bool{}
+	for t := range goal.m {
+		local[t] = true
+	}
+	for _, f := range fs {
+		for t := range f.m {
+			local[t] = true
+		}
+	}
 	terms := map[interface{}]bool{}
 	for t := range goal.m {
 		terms[t] = true
 	}
 	for _, f := range c {
 		for t := range f.m {
-			terms[t] = true
+			if local[t] {
+				terms[t] = true
+			}
 		}
 	}
 	tried := 0
@@ -589,7 +628,7 @@ func (s *Fn) entailsD(fs, dq []Lin, goal Lin, depth int) bool {
 			}
 		case *ssa.Call:
 			f := x.Call.StaticCallee()
-			if f == nil || !s.e.inMod(f) {
+			if f == nil || !s.e.inMod(f) || x == s.noSplit {
 				continue
 			}
 			cs := s.e.returnCases(f)
